@@ -1,10 +1,12 @@
 import Driver.Registry
 import Driver.Exec
+import Driver.CalcSteps
 import Driver.Struct
 /-! `mxdriver <layer>`: reads one operation per line on stdin, prints one observation per line. -/
 def main (args : List String) : IO UInt32 := do
   match args with
   | ["registry"] => Driver.Registry.main; return 0
   | ["exec"] => Driver.Exec.main; return 0
+  | ["calcsteps"] => Driver.CalcSteps.main; return 0
   | ["struct"] => Driver.Struct.main; return 0
   | _ => IO.eprintln "usage: mxdriver <layer>"; return 2
